@@ -248,6 +248,10 @@ type c17node struct {
 	closer *ChanCloser
 	script []byte
 	bcast  []*wire.MsgTx
+	// gone: after a restart the channel is not loaded any more because a
+	// co-op close tx is on record (peer.restartCoopClose); the old closer
+	// object is kept for reporting only.
+	gone bool
 }
 
 func c17ser(tx *wire.MsgTx) []byte {
